@@ -22,6 +22,7 @@ type Value struct {
 	L    []Value          // list
 	O    map[string]Value // obj
 	Keys []string         // obj: key order as received (documents only)
+	E    *Value           // each, opt: the shape of the members / of the value when it is not null
 }
 
 func Null() Value          { return Value{K: "null"} }
@@ -39,8 +40,10 @@ func Obj(o map[string]Value) Value {
 func (v Value) MarshalJSON() ([]byte, error) {
 	var p interface{}
 	switch v.K {
-	case "null", "echo", "absent":
+	case "null", "echo", "absent", "any":
 		p = 0
+	case "each", "opt":
+		p = v.E
 	case "errs", "errsn":
 		p = v.I
 	case "str", "enum", "node", "err", "errval", "var", "num", "other", "float":
@@ -79,7 +82,10 @@ func (v *Value) UnmarshalJSON(b []byte) error {
 	}
 	v.K = raw.K
 	switch raw.K {
-	case "null", "echo", "absent":
+	case "null", "echo", "absent", "any":
+	case "each", "opt":
+		v.E = &Value{}
+		return json.Unmarshal(raw.V, v.E)
 	case "errs", "errsn":
 		return json.Unmarshal(raw.V, &v.I)
 	case "str", "enum", "node", "err", "errval", "var", "num", "other", "float":
@@ -135,6 +141,52 @@ func (v Value) Equal(o Value) bool {
 		}
 	}
 	return true
+}
+
+// Matches: the value is what the (possibly partial) prescription v allows. "any" stands for any value that is there,
+// "opt" for null or a value of the given shape, "each" for null or a list whose members are null or of the given shape.
+func (v Value) Matches(act Value) bool {
+	switch v.K {
+	case "any":
+		return act.K != "absent"
+	case "opt":
+		return act.K == "null" || v.E.Matches(act)
+	case "each":
+		if act.K == "null" {
+			return true
+		}
+		if act.K != "list" {
+			return false
+		}
+		for _, e := range act.L {
+			if e.K != "null" && !v.E.Matches(e) {
+				return false
+			}
+		}
+		return true
+	case "obj":
+		if act.K != "obj" || len(v.O) != len(act.O) {
+			return false
+		}
+		for k, x := range v.O {
+			y, ok := act.O[k]
+			if !ok || !x.Matches(y) {
+				return false
+			}
+		}
+		return true
+	case "list":
+		if act.K != "list" || len(v.L) != len(act.L) {
+			return false
+		}
+		for i := range v.L {
+			if !v.L[i].Matches(act.L[i]) {
+				return false
+			}
+		}
+		return true
+	}
+	return v.Equal(act)
 }
 
 func (v Value) String() string {
